@@ -294,6 +294,12 @@ func C10Programs() []string {
 		"m := {a:1 b:2 c:3}\nfor k := range m\n    del m k\n    m[k] = 5\n    print k m\nend\n",
 		"for i := range 3 0 -1\n    print i\nend\nfor i := range 0 1 0.25\n    print i\nend\n",
 	)
+	// a bare `return` leaves exactly the current procedure, from any nesting depth, also under recursion
+	out = append(out,
+		"func p n:num\n    print \"in\" n\n    if n > 3\n        return\n    end\n    for i := range 3\n        while true\n            if i == n\n                return\n            end\n            break\n        end\n        print \"i\" i\n    end\n    print \"end\" n\nend\np 0\np 1\np 2\np 3\np 5\nprint \"done\"\n",
+		"func q n:num\n    if n == 0\n        return\n    end\n    print \"down\" n\n    q n-1\n    print \"up\" n\n    if n == 2\n        return\n    end\n    print \"tail\" n\nend\nq 3\nprint \"done\"\n",
+		"func r\n    for k := range {a:1 b:2}\n        for c := range \"xy\"\n            for e := range [1 2]\n                for i := range 2\n                    print k c e i\n                    if e == 2\n                        return\n                    end\n                end\n            end\n        end\n    end\n    print \"never\"\nend\nr\nr\nprint \"done\"\n",
+		"func s\n    return\nend\ns\nfunc t\n    print \"t\"\n    return\nend\nt\nprint \"done\"\n")
 	// `for ... range` visits exactly the code points of a string, the elements of an array, the keys of a map:
 	// every kind of content (empty, ASCII, 2-, 3- and 4-byte characters, combining marks), with the count and the
 	// position checked inside the loop, with break / return from the inner loop, and without a loop variable
@@ -753,6 +759,8 @@ func RunC15(d *Driver) *Report {
 			}
 		}
 		b += "    g = g + 1\n"
+		// every third event: a bare `return` from inside a loop inside an if — the rest of the handler does not run
+		b += "    if g % 3 == 0\n        for ri := range 2\n            if ri == 1\n                print \"early\" g\n                return\n            end\n        end\n    end\n"
 		b += "    l := g * 100\n    print \"local\" l\n    l = l + 1\n"
 		if len(used) > 0 && (strings.Contains(params, ":num")) {
 			for _, p := range strings.Fields(params) {
